@@ -55,7 +55,7 @@ type runState struct {
 	ms        []*Model // declared graph per graph (construction calls can be per graph)
 	res       *Result
 	ng        int
-	phase     int    // 1, or 2 during/after the second Run of a Phase2 scenario
+	phase     int    // 1, or k during/after the k-th Run of a scenario with extra phases
 	carried   []bool // phase 2: tasks that completed successfully in the first Run
 	curMaxPar int
 	unit      time.Duration
@@ -566,9 +566,17 @@ func (r *runState) main() {
 					for j, d := range c.Deps {
 						ds[j] = tasks[d]
 					}
-					gr.TaskDependsOn(pick(c), ds...)
+					if c.Via == "graph" {
+						gr.TaskDependsOn(gr.Task(fmt.Sprintf("t%02d", c.T)), ds...)
+					} else {
+						gr.TaskDependsOn(pick(c), ds...)
+					}
 				case "retries":
-					gr.TaskRetries(pick(c), c.R)
+					if c.Via == "graph" {
+						gr.TaskRetries(gr.Task(fmt.Sprintf("t%02d", c.T)), c.R)
+					} else {
+						gr.TaskRetries(pick(c), c.R)
+					}
 				case "lookup":
 					gr.Task(fmt.Sprintf("t%02d", c.T))
 				case "addnil":
@@ -633,24 +641,27 @@ func (r *runState) main() {
 				simrt.Unlock()
 			}
 			runOnce()
-			if sc.Phase2 != nil && ng == 1 && r.phase2Applicable() {
+			for pi, ph := range sc.ExtraPhases() {
+				if ng != 1 || !r.phase2Applicable() {
+					break
+				}
 				simrt.Lock()
-				r.posthocGraph(0, false) // the first Run is judged on its own
-				r.res.Probes["second_run_on_extended_graph"]++
-				r.histAdd("phase2")
+				r.posthocGraph(0, false) // the Run that just returned is judged on its own
+				r.res.Probes["rerun_on_extended_graph"]++
+				r.histAdd(fmt.Sprintf("phase%d", pi+2))
 				for i := 0; i < n; i++ {
-					r.carried[i] = r.attempts[0][i] > 0
+					r.carried[i] = r.carried[i] || r.attempts[0][i] > 0
 					r.attempts[0][i] = 0
 				}
-				r.phase = 2
-				r.ms[0] = sc.ModelForPhase(0, 2)
+				r.phase = pi + 2
+				r.ms[0] = sc.ModelForPhase(0, pi+2)
 				r.m = r.ms[0]
 				r.returned[0] = false
 				simrt.Unlock()
-				applyCalls(graphs[0], 0, sc.Phase2.Build)
-				if sc.Phase2.MaxPar > 0 {
-					graphs[0].SetMaxParallel(sc.Phase2.MaxPar)
-					r.curMaxPar = sc.Phase2.MaxPar
+				applyCalls(graphs[0], 0, ph.Build)
+				if ph.MaxPar > 0 {
+					graphs[0].SetMaxParallel(ph.MaxPar)
+					r.curMaxPar = ph.MaxPar
 				}
 				vs, err := graphs[0].DepthFirstSort()
 				simrt.Lock()
